@@ -98,3 +98,69 @@ pub fn run(env: &Env, replay: Option<&Path>) -> i32 {
     drive(env, &HashPoint, env.tier.pick(200_000, 4_000_000), &mut report);
     finish(env, report, &META)
 }
+
+/// `fvh hunt-c14 <count> <keep>`: among <count> strings "unlucky-<i>" (as bytes), the <keep> whose
+/// SHAKE-256 stream makes HashToPoint read the most 16-bit chunks, for n = 512 and for n = 1024
+/// (computed with the reference model only). Such strings sit in the far tail of the rejection
+/// sampler's running time; they go to the corpus of C14 and C03.
+pub fn hunt(count: u64, keep: usize) {
+    let best: std::sync::Mutex<(Vec<(usize, u64)>, Vec<(usize, u64)>)> = std::sync::Mutex::new((vec![], vec![]));
+    let next = std::sync::atomic::AtomicU64::new(0);
+    std::thread::scope(|sc| {
+        for _ in 0..16 {
+            sc.spawn(|| {
+                let (mut b512, mut b1024): (Vec<(usize, u64)>, Vec<(usize, u64)>) = (vec![], vec![]);
+                loop {
+                    let start = next.fetch_add(4096, std::sync::atomic::Ordering::Relaxed);
+                    if start >= count {
+                        break;
+                    }
+                    for i in start..(start + 4096).min(count) {
+                        let s = hunt_string(i);
+                        let (c, chunks) = refimpl::hash::hash_to_point_traced(&s, 1024);
+                        let _ = c;
+                        // chunks read for n = 512: position of the 512-th accepted chunk
+                        let mut acc = 0;
+                        let mut used512 = 0;
+                        for (k, &t) in chunks.iter().enumerate() {
+                            if t < 61445 {
+                                acc += 1;
+                                if acc == 512 {
+                                    used512 = k + 1;
+                                    break;
+                                }
+                            }
+                        }
+                        b512.push((used512, i));
+                        b1024.push((chunks.len(), i));
+                    }
+                    b512.sort_by(|a, b| b.cmp(a));
+                    b512.truncate(keep);
+                    b1024.sort_by(|a, b| b.cmp(a));
+                    b1024.truncate(keep);
+                }
+                let mut g = best.lock().unwrap();
+                g.0.extend(b512);
+                g.1.extend(b1024);
+            });
+        }
+    });
+    let (mut a, mut b) = best.into_inner().unwrap();
+    a.sort_by(|x, y| y.cmp(x));
+    a.truncate(keep);
+    b.sort_by(|x, y| y.cmp(x));
+    b.truncate(keep);
+    for (used, i) in a {
+        println!("512 {} {}", used, hex(&hunt_string(i)));
+    }
+    for (used, i) in b {
+        println!("1024 {} {}", used, hex(&hunt_string(i)));
+    }
+}
+
+/// 48-byte strings: 40 bytes that double as a salt, then an 8-byte counter (the message).
+fn hunt_string(i: u64) -> Vec<u8> {
+    let mut s = vec![0x42u8; 40];
+    s.extend_from_slice(&i.to_le_bytes());
+    s
+}
